@@ -48,29 +48,30 @@ def items():
     its += [
         Fn(TRV, "strip_trivia", mode="stub"),
         Fn(TRV, "strip_leading_trivia", mode="stub"),
-        Fn(TU, "take_trailing_comments", contract="ensures node.same_sem_t(&r.0),"),
+        Fn(TU, "take_trailing_comments", contract="ensures node.same_sem_t(&r.0), r.0.not_open(),"),
         Fn(TU, "take_leading_comments", contract="ensures node.same_sem(&r.0),"),
         Fn(TU, "contains_comments", mode="stub", sig_edits=[VN]),
         Item(GEN, "enum", "EndTokenType"),
         Fn(GEN, "format_contained_span", mode="stub"),
-        Fn(GEN, "format_token_reference", mode="stub", contract="ensures tok_of(r) == tok_of(*token_reference), token_type_of(tr_token(*token_reference)) is Symbol ==> tr_token(r) == tr_token(*token_reference), token_type_of(tr_token(r)) is Symbol ==> token_type_of(tr_token(*token_reference)) is Symbol, is_bracket_tok(r) == is_bracket_tok(*token_reference),"),
+        Fn(GEN, "format_token_reference", mode="stub", contract="ensures leaf_safe(Expression::Number(r)), leaf_safe(Expression::String(r)), leaf_safe(Expression::Symbol(r)), tok_of(r) == tok_of(*token_reference), token_type_of(tr_token(*token_reference)) is Symbol ==> tr_token(r) == tr_token(*token_reference), token_type_of(tr_token(r)) is Symbol ==> token_type_of(tr_token(*token_reference)) is Symbol, is_bracket_tok(r) == is_bracket_tok(*token_reference),"),
         Fn(GEN, "format_symbol", mode="stub"),
         Fn(GEN, "format_end_token", mode="stub"),
         Item(FUN, "enum", "FunctionCallNextNode"),
-        Fn(FUN, "format_anonymous_function", mode="stub", contract="ensures anon_fn_id(*r) == anon_fn_id(*anonymous_function),"),
-        Fn(FUN, "format_function_call", mode="stub", contract="ensures call_id(r) == call_id(*function_call),"),
+        Fn(FUN, "format_anonymous_function", mode="stub", contract="ensures anon_fn_id(*r) == anon_fn_id(*anonymous_function), leaf_safe(Expression::Function(r)),"),
+        Fn(FUN, "format_function_call", mode="stub", contract="ensures call_id(r) == call_id(*function_call), leaf_safe(Expression::FunctionCall(r)),"),
         Fn(FUN, "format_call", mode="stub"),
-        Fn("src/formatters/table.rs", "format_table_constructor", mode="stub", contract="ensures table_id(r) == table_id(*table_constructor),"),
+        Fn("src/formatters/table.rs", "format_table_constructor", mode="stub", contract="ensures table_id(r) == table_id(*table_constructor), leaf_safe(Expression::TableConstructor(r)),"),
         Item(EX, "enum", "ExpressionContext"),
         Raw(SPEC_EXPR, module="formatters::expression"),
-        Fn(EX, "format_var", mode="stub", contract="ensures var_id(r) == var_id(*var),"),
-        Fn(EX, "format_if_expression", mode="stub", contract="ensures if_id(r) == if_id(*if_expression),"),
-        Fn(EX, "format_interpolated_string", mode="stub", contract="ensures interp_id(r) == interp_id(*interpolated_string),"),
+        Fn(EX, "format_var", mode="stub", contract="ensures var_id(r) == var_id(*var), leaf_safe(Expression::Var(r)),"),
+        Fn(EX, "format_if_expression", mode="stub", contract="ensures if_id(r) == if_id(*if_expression), leaf_safe(Expression::IfExpression(r)),"),
+        Fn(EX, "format_interpolated_string", mode="stub", contract="ensures interp_id(r) == interp_id(*interpolated_string), leaf_safe(Expression::InterpolatedString(r)),"),
         Fn("src/formatters/luau.rs", "format_type_assertion", mode="stub", attrs='#[cfg(feature = "luau")]\n',
-           contract="ensures type_assertion_id(r) == type_assertion_id(*type_assertion),"),
-        Fn(EX, "format_binop", mode="stub", contract="ensures binop_id(r) == binop_id(*binop),"),
+           contract="ensures type_assertion_id(r) == type_assertion_id(*type_assertion), ta_safe(r),"),
+        Fn(EX, "format_binop", mode="stub", contract="ensures binop_id(r) == binop_id(*binop), binop_open(r) ==> binop_open(*binop),",
+           note="line facts (class C): the formatted operator carries the trailing comments of the source operator and no others"),
         Fn(EX, "format_unop", mode="stub", contract="ensures unop_id(r) == unop_id(*unop),"),
-        Fn(EX, "removed_parentheses_comments", mode="stub",
+        Fn(EX, "removed_parentheses_comments", mode="stub", contract="ensures trivia_lines_ok(r.0@),",
            note="two iterator-adapter chains collecting the comments around both parentheses of a removed pair (C03: bounded witnesses only)"),
         Fn(EX, "check_excess_parentheses", ret="b", contract="""
     requires wf(skel(*internal_expression)),
@@ -89,15 +90,18 @@ def items():
         right_open(skel(r)) ==> right_open(skel(expression)),
         fits(skel(expression), Pos::UnaryOperand) ==> fits(skel(r), Pos::UnaryOperand),
         unop_id(*unop) == UN_MINUS ==> !(skel(r) is Un && skel(r)->Un_0 == UN_MINUS), //# C01.double_minus_guard
+        esafe(expression) ==> esafe(r), //# C01.double_minus_parens_line_safe
 """),
-        Fn(TU, "prepend_newline_indent", mode="stub", contract="ensures node.same_sem(&r),",
+        Fn(TU, "prepend_newline_indent", mode="stub", contract="ensures node.same_sem(&r), r.on_new_line(), node.rest_same(&r),",
            note="iterator chain building [newline, indent, comment]* newline indent; only trivia changes (UpdateLeadingTrivia interface)"),
         Fn(EX, "move_operand_below_comment", contract="""
     ensures skel(r) == skel(expression), begins_with_bracket_string(r) == begins_with_bracket_string(expression), //# C02.unary_operand_same
+        esafe(r) == esafe(expression), unop_open(*unop) ==> enl(r), //# C01.unary_operand_below_comment
 """),
         Fn(EX, "format_expression", contract="""
     requires wf(skel(*expression)),
     ensures expr_post(*expression, r, ExpressionContext::Standard), //# C05.format_expression
+            esafe(r), //# C01.format_expression.line_safe
             begins_with_bracket_string(r) ==> may_begin_with_bracket_string(*expression), //# C01.bracket_string_visible
     decreases expression, 5int,
 """),
@@ -109,6 +113,7 @@ def items():
         no_double_minus(skel(r)), //# C05.single_line.no_double_minus
         forall|p: Pos| #![trigger gamma(context, p)] #![trigger fits(skel(r), p)] gamma(context, p) && fits(skel(*expression), p) ==> fits(skel(r), p), //# C05.single_line.fits
         stays_closed(*expression, r, context), //# C05.single_line.closed
+        esafe(r), //# C01.single_line.line_safe
         begins_with_bracket_string(r) ==> may_begin_with_bracket_string(*expression), //# C01.bracket_string_visible_internal
     decreases expression, (if *expression is BinaryOperator { 4int } else { 0int }),
 """, edits=[
@@ -129,6 +134,7 @@ def post(prefix, e, ctx, extra="", bs=False):
         no_double_minus(skel(r)), //# {prefix}.no_double_minus
         forall|p: Pos| #![trigger gamma({ctx}, p)] #![trigger fits(skel(r), p)] gamma({ctx}, p) && fits(skel({e}), p) ==> fits(skel(r), p), //# {prefix}.fits
         stays_closed({e}, r, {ctx}), //# {prefix}.closed
+        esafe(r), //# {prefix}.line_safe
 {extra}"""
 
 W = "verif::hole_usize()"
@@ -228,6 +234,10 @@ LABELS = {
     "C05.prefix_keeps_parens": dict(props=["C05", "C02"], text="format_prefix (both layout paths): a parenthesised prefix expression keeps its parentheses; operator tree preserved"),
     "C01.bracket_string_visible": dict(props=["C01"], text="format_expression: if the formatted expression begins with a long-bracket string token, the input was recognisable as such by is_brackets_string (through parentheses, type assertions, left operands)"),
     "C02.unary_operand_same": dict(props=["C02", "C05"], text="move_operand_below_comment (operand of a unary operator that is followed by a line comment goes to a new line): only trivia changes"),
+    "C01.single_line.line_safe": dict(props=["C01", "C02", "C03"], text="format_expression_internal: no token of the formatted expression is printed behind a line comment on the same line (operators, operands, parentheses, type assertions; leaves assumed)"),
+    "C01.format_expression.line_safe": dict(props=["C01", "C02", "C03"], text="format_expression: same"),
+    "C01.unary_operand_below_comment": dict(props=["C01"], text="move_operand_below_comment: when the operator is followed by a line comment the operand starts a new line; nothing else changes"),
+    "C01.double_minus_parens_line_safe": dict(props=["C01"], text="keep_double_minus_apart: the parentheses it adds do not end up behind a line comment (the operand's trailing comments are moved behind `)`)"),
     "C01.bracket_string_visible_internal": dict(props=["C01"], text="same, for format_expression_internal (induction)"),
     "C01.bracket_string_visible_hanging": dict(props=["C01"], text="same, for the hanging formatters format_hanging_expression_ / hang_binop_expression, which format_expression_internal falls back to when a line comment sits at a binary operator"),
     "C01.is_brackets_string": dict(props=["C01", "C04"], text="is_brackets_string is true exactly for expressions that will print with a leading long-bracket string (any level: `[[`, `[=[`, ...)"),
@@ -246,6 +256,7 @@ for _p, _t in [("C05.hang_binop", "hang_binop_expression (hanging path, operand 
     LABELS[_p + ".wf"] = dict(props=["C05", "C02", "C01"], text=_t + ": every operand of the output fits its position (re-parse-stable)")
     LABELS[_p + ".no_double_minus"] = dict(props=["C05", "C01"], text=_t + ": no unary minus directly under a unary minus (`--x`)")
     LABELS[_p + ".fits"] = dict(props=["C05", "C02"], text=_t + ": the result still fits every position its ExpressionContext stands for")
+    LABELS[_p + ".line_safe"] = dict(props=["C01", "C02", "C03"], text=_t + ": no token of the formatted expression is printed behind a line comment on the same line (operators, operands, parentheses, type assertions; leaves assumed)")
     LABELS[_p + ".closed"] = dict(props=["C05", "C01"], text=_t + ": under an operator the result does not become right-open")
 
 UNIT = Unit("expr", items() + [VERIF_MOD], LABELS, macros=[(GEN, "fmt_symbol"), (EX, "fmt_op")], header=HEADER, module_header=MODHDR)
